@@ -25,7 +25,15 @@ Exp ==
     size |-> [i \in 1..nh' |-> IF LiveP(i-1) THEN Len(ListOf(cyc', i-1)) ELSE -1],
     rsize |-> [i \in 1..nh' |-> IF LiveP(i-1) THEN Len(ListOf(cyc', i-1)) ELSE -1],
     empty |-> [i \in 1..nh' |-> IF LiveP(i-1) THEN B2I(ListOf(cyc', i-1) = <<>>) ELSE -1],
-    correct |-> [i \in 1..nh' |-> IF LiveP(i-1) THEN 1 ELSE -1]]
+    correct |-> [i \in 1..nh' |-> IF LiveP(i-1) THEN 1 ELSE -1],
+    \* the entry-based iteration macros / decrementing iterators, first and last entry, bounded cycle checks (dlist_check, circular_size)
+    efwd |-> [i \in 1..nh' |-> IF LiveP(i-1) THEN ListOf(cyc', i-1) ELSE <<>>],
+    esafe |-> [i \in 1..nh' |-> IF LiveP(i-1) THEN ListOf(cyc', i-1) ELSE <<>>],
+    ebwd |-> [i \in 1..nh' |-> IF LiveP(i-1) THEN Rev(ListOf(cyc', i-1)) ELSE <<>>],
+    first |-> [i \in 1..nh' |-> IF LiveP(i-1) /\ ListOf(cyc', i-1) # <<>> THEN Head(ListOf(cyc', i-1)) ELSE -1],
+    last |-> [i \in 1..nh' |-> IF LiveP(i-1) /\ ListOf(cyc', i-1) # <<>> THEN ListOf(cyc', i-1)[Len(ListOf(cyc', i-1))] ELSE -1],
+    chk |-> [i \in 1..nh' |-> IF LiveP(i-1) THEN Len(ListOf(cyc', i-1)) ELSE -1],
+    chkr |-> [i \in 1..nh' |-> IF LiveP(i-1) THEN Len(ListOf(cyc', i-1)) ELSE -1]]
    @@ (IF flavor' = "c"
        THEN [inm |-> [i \in 1..nh' |->
                 IF LiveP(i-1)
